@@ -1,3 +1,412 @@
 import Anytree.Spec.Export
+import Anytree.Props.C06
+import Anytree.Lemmas.Export
+/-!
+# C12 — DOT export declares exactly the admitted nodes and only edges between them
+(and the shared facts used by C13)
+-/
 namespace Anytree.Props.C12
+open Anytree Tree Export Spec
+variable {α κ : Type}
+
+/-! ## structure of the emitted lines, for a pure naming function -/
+
+/-- DotExporter with any pure name function (after the D2 fix): header, options, one node statement
+per declared node in pre-order, the edge set of finding D3, closing brace; the id map is untouched -/
+theorem dot_lines_pure (c : DotCfg α κ) (nm : Tree α → String) (t : Tree α) (st : IdMap κ) :
+    dotIter false { c with nodename := NameFn.pure nm } t st = (Spec.dotLinesD3 c nm t, st) := by
+  unfold dotIter
+  simp only [dotNodes_pure, dotEdges_pure, C06.preIter_spec, edgeMax_false]
+  simp only [dotLinesD3, declared, edgePairsNoStopRecheck, List.map_flatMap, List.map_map]
+  rfl
+
+/-- the emitted edge set differs from the demanded one exactly by children that satisfy `stop` -/
+theorem edgePairs_eq_filter (F S : Tree α → Bool) (m : Option Int) (t : Tree α) :
+    Spec.edgePairs F S m t = (Spec.edgePairsNoStopRecheck F S m t).filter (fun pc => !S pc.2) := by
+  rw [edgePairs_struct, edgePairsNoStopRecheck, List.filter_flatMap]
+  congr 1
+  funext p
+  rw [List.filter_map, List.filter_filter]
+  congr 2
+  funext c
+  simp [Bool.and_comm]
+
+/-- so without a `stop` function the DOT text is exactly what the property demands -/
+theorem dot_lines_full (c : DotCfg α κ) (nm : Tree α → String) (t : Tree α) (st : IdMap κ)
+    (hS : ∀ x, c.stop x = false) :
+    (dotIter false { c with nodename := NameFn.pure nm } t st).1 = Spec.dotLinesS c nm t := by
+  rw [dot_lines_pure]
+  have h : Spec.edgePairs c.filter c.stop c.maxlevel t =
+      Spec.edgePairsNoStopRecheck c.filter c.stop c.maxlevel t := by
+    rw [edgePairs_eq_filter]
+    simp [hS]
+  simp only [dotLinesS, dotLinesD3, h]
+
+/-- every edge starts at a declared node, and no demanded edge is missing -/
+theorem edge_parents_declared (F S : Tree α → Bool) (m : Option Int) (t : Tree α) :
+    ∀ pc ∈ Spec.edgePairsNoStopRecheck F S m t, pc.1 ∈ Spec.declared F S m t := by
+  intro pc hpc
+  simp only [edgePairsNoStopRecheck, List.mem_flatMap, List.mem_map] at hpc
+  obtain ⟨p, hp, c, _, rfl⟩ := hpc
+  exact preSpec_lower_subset F S m t p hp
+theorem no_admitted_link_missing (F S : Tree α → Bool) (m : Option Int) (t : Tree α) :
+    ∀ pc ∈ Spec.edgePairs F S m t, pc ∈ Spec.edgePairsNoStopRecheck F S m t := by
+  intro pc hpc
+  rw [edgePairs_eq_filter, List.mem_filter] at hpc
+  exact hpc.1
+/-- both ends of a demanded edge are declared -/
+theorem edge_ends_declared (F S : Tree α → Bool) (m : Option Int) (t : Tree α) :
+    ∀ pc ∈ Spec.edgePairs F S m t, pc.1 ∈ Spec.declared F S m t ∧ pc.2 ∈ Spec.declared F S m t := by
+  intro pc hpc
+  unfold edgePairs admittedNodes at hpc
+  unfold declared preSpec
+  cases hA : admitT S m t with
+  | none => rw [hA] at hpc; simp at hpc
+  | some A =>
+    rw [hA] at hpc
+    simp only [List.mem_flatMap] at hpc
+    obtain ⟨P, hP, hpc⟩ := hpc
+    by_cases hF : F P.label = true
+    · simp only [hF, if_true, List.mem_map, List.mem_filter] at hpc
+      obtain ⟨C, ⟨hC, hFC⟩, rfl⟩ := hpc
+      have := mem_pre_decorate A P hP
+      simp only [optPre, List.mem_filter]
+      exact ⟨⟨this.1, hF⟩, ⟨this.2 C hC, hFC⟩⟩
+    · simp [hF] at hpc
+
+/-! ## escaping -/
+theorem unesc_esc (cs : List Char) : Spec.unescChars (escChars cs) = cs := by
+  induction cs with
+  | nil => rfl
+  | cons c cs ih =>
+    by_cases h : c = '"' ∨ c = '\\'
+    · simp only [escChars, h, if_true, unescChars, ih]
+    · simp only [escChars, h, if_false]
+      have hc : c ≠ '\\' := fun e => h (Or.inr e)
+      rw [unescChars, ih]
+      · intro c' cs' e _
+        exact hc e
+theorem esc_injective (a b : List Char) (h : escChars a = escChars b) : a = b := by
+  rw [← unesc_esc a, h, unesc_esc]
+
+/-! ## the id map: distinct and stable identifiers -/
+
+/-- well-formed id map: numbers are `0 … size-1` in order of first use, keys pairwise distinct -/
+def IdMap.WF [DecidableEq κ] (st : IdMap κ) : Prop :=
+  st.map Prod.snd = List.range st.length ∧ (st.map Prod.fst).Nodup
+
+theorem lookup_none [DecidableEq κ] (st : IdMap κ) (k : κ) (h : st.lookup k = none) :
+    ∀ e ∈ st, e.1 ≠ k := by
+  unfold IdMap.lookup at h
+  rw [Option.map_eq_none_iff, List.find?_eq_none] at h
+  intro e he
+  simpa using h e he
+
+theorem lookup_some [DecidableEq κ] (st : IdMap κ) (k : κ) (n : Nat) (h : st.lookup k = some n) :
+    (k, n) ∈ st := by
+  unfold IdMap.lookup at h
+  rw [Option.map_eq_some_iff] at h
+  obtain ⟨e, he, rfl⟩ := h
+  have h1 := List.mem_of_find?_eq_some he
+  have h2 := List.find?_some he
+  simp only [decide_eq_true_eq] at h2
+  subst h2
+  exact h1
+
+theorem get_none [DecidableEq κ] (st : IdMap κ) (k : κ) (h : st.lookup k = none) :
+    st.get k = (st.length, st ++ [(k, st.length)]) := by
+  unfold IdMap.get; rw [h]
+
+theorem get_some [DecidableEq κ] (st : IdMap κ) (k : κ) (n : Nat) (h : st.lookup k = some n) :
+    st.get k = (n, st) := by
+  unfold IdMap.get; rw [h]
+
+theorem get_wf [DecidableEq κ] (st : IdMap κ) (k : κ) (h : IdMap.WF st) : IdMap.WF (st.get k).2 := by
+  cases hl : st.lookup k with
+  | some n => rw [get_some st k n hl]; exact h
+  | none =>
+    rw [get_none st k hl]
+    obtain ⟨h1, h2⟩ := h
+    constructor
+    · simp only [List.map_append, List.map_cons, List.map_nil, List.length_append, List.length_cons,
+        List.length_nil, Nat.zero_add, List.range_succ, h1]
+    · simp only [List.map_append, List.map_cons, List.map_nil]
+      rw [List.nodup_append]
+      refine ⟨h2, by simp, ?_⟩
+      intro a ha b hb
+      simp only [List.mem_singleton] at hb
+      subst hb
+      rw [List.mem_map] at ha
+      obtain ⟨e, he, rfl⟩ := ha
+      exact lookup_none st b hl e he
+/-- a number once given is kept for ever -/
+theorem get_stable [DecidableEq κ] (st : IdMap κ) (k k' : κ) (n : Nat) (h : st.lookup k' = some n) :
+    (st.get k).2.lookup k' = some n := by
+  cases hl : st.lookup k with
+  | some n' => rw [get_some st k n' hl]; exact h
+  | none =>
+    rw [get_none st k hl]
+    unfold IdMap.lookup at h ⊢
+    rw [List.find?_append]
+    cases hf : List.find? (fun e => decide (e.1 = k')) st with
+    | none => rw [hf] at h; simp at h
+    | some e => rw [hf] at h; simpa using h
+theorem get_lookup [DecidableEq κ] (st : IdMap κ) (k : κ) :
+    (st.get k).2.lookup k = some (st.get k).1 := by
+  cases hl : st.lookup k with
+  | some n' => rw [get_some st k n' hl]; exact hl
+  | none =>
+    rw [get_none st k hl]
+    have hf : List.find? (fun e => decide (e.1 = k)) st = none := by
+      unfold IdMap.lookup at hl
+      simpa using hl
+    unfold IdMap.lookup
+    rw [List.find?_append, hf]
+    simp
+/-- distinct nodes get distinct numbers -/
+theorem lookup_injective [DecidableEq κ] (st : IdMap κ) (h : IdMap.WF st) (k k' : κ) (n : Nat)
+    (h1 : st.lookup k = some n) (h2 : st.lookup k' = some n) : k = k' := by
+  have key : ∀ (l : List (κ × Nat)), (l.map Prod.snd).Nodup → ∀ e ∈ l, ∀ e' ∈ l, e.2 = e'.2 → e = e' := by
+    intro l
+    induction l with
+    | nil => intro _ e he; simp at he
+    | cons x xs ih =>
+      intro hnd e he e' he' hee
+      simp only [List.map_cons, List.nodup_cons, List.mem_map, not_exists, not_and] at hnd
+      simp only [List.mem_cons] at he he'
+      rcases he with rfl | he <;> rcases he' with rfl | he'
+      · rfl
+      · exact absurd hee.symm (hnd.1 e' he')
+      · exact absurd hee (hnd.1 e he)
+      · exact ih hnd.2 e he e' he' hee
+  have hnd : (st.map Prod.snd).Nodup := by rw [h.1]; exact List.nodup_range
+  have := key st hnd (k, n) (lookup_some st k n h1) (k', n) (lookup_some st k' n h2) rfl
+  exact (Prod.mk.inj this).1
+
+/-- the identifier of a node read off an id map -/
+def finalHex [DecidableEq κ] (st : IdMap κ) (key : Tree α → κ) : Tree α → String :=
+  fun n => pyHex ((st.lookup (key n)).getD 0)
+def finalN [DecidableEq κ] (st : IdMap κ) (key : Tree α → κ) : Tree α → String :=
+  fun n => "N" ++ toString ((st.lookup (key n)).getD 0)
+
+/-! ### the generic counter-based naming -/
+
+/-- `st'` knows every identifier of `st` -/
+def Extends [DecidableEq κ] (st st' : IdMap κ) : Prop :=
+  ∀ k n, st.lookup k = some n → st'.lookup k = some n
+
+theorem Extends.refl [DecidableEq κ] (st : IdMap κ) : Extends st st := fun _ _ h => h
+theorem Extends.trans [DecidableEq κ] {a b c : IdMap κ} (h1 : Extends a b) (h2 : Extends b c) :
+    Extends a c := fun k n h => h2 k n (h1 k n h)
+
+/-- first-use counter naming with an arbitrary number format (`pyHex` / `"N" ++ toString`) -/
+def ctrName [DecidableEq κ] (fmt : Nat → String) (key : Tree α → κ) : NameFn α κ := fun st n =>
+  let r := st.get (key n); (fmt r.1, r.2)
+
+def finalName [DecidableEq κ] (fmt : Nat → String) (st : IdMap κ) (key : Tree α → κ) :
+    Tree α → String :=
+  fun n => fmt ((st.lookup (key n)).getD 0)
+
+theorem uniqueName_eq [DecidableEq κ] (key : Tree α → κ) : uniqueName key = ctrName pyHex key := rfl
+theorem mermaidName_eq [DecidableEq κ] (key : Tree α → κ) :
+    mermaidName key = ctrName (fun n => "N" ++ toString n) key := rfl
+
+/-- what a threaded pass `f` must satisfy to be replaceable by the pure pass `g` reading the names
+off any later map -/
+def Pass [DecidableEq κ] (fmt : Nat → String) (key : Tree α → κ)
+    (f : IdMap κ → List String × IdMap κ) (g : (Tree α → String) → List String) : Prop :=
+  ∀ st, Extends st (f st).2 ∧ (IdMap.WF st → IdMap.WF (f st).2) ∧
+    ∀ st', Extends (f st).2 st' → (f st).1 = g (finalName fmt st' key)
+
+theorem ctrName_step [DecidableEq κ] (fmt : Nat → String) (key : Tree α → κ) (st : IdMap κ)
+    (n : Tree α) :
+    Extends st (ctrName fmt key st n).2 ∧ (IdMap.WF st → IdMap.WF (ctrName fmt key st n).2) ∧
+    ∀ st', Extends (ctrName fmt key st n).2 st' →
+      (ctrName fmt key st n).1 = finalName fmt st' key n := by
+  refine ⟨fun k m h => get_stable st (key n) k m h, fun h => get_wf st (key n) h, ?_⟩
+  intro st' hst'
+  have := hst' _ _ (get_lookup st (key n))
+  simp only [finalName, this, Option.getD_some]
+  rfl
+
+/-- sequencing: a name lookup followed by a pass that may use the name -/
+theorem Pass.bind [DecidableEq κ] (fmt : Nat → String) (key : Tree α → κ) (n : Tree α)
+    (f : String → IdMap κ → List String × IdMap κ) (g : (Tree α → String) → List String)
+    (h : ∀ pn st, Extends st (f pn st).2 ∧ (IdMap.WF st → IdMap.WF (f pn st).2) ∧
+      ∀ st', Extends (f pn st).2 st' → pn = finalName fmt st' key n →
+        (f pn st).1 = g (finalName fmt st' key)) :
+    Pass fmt key (fun st => f (ctrName fmt key st n).1 (ctrName fmt key st n).2) g := by
+  intro st
+  obtain ⟨e1, w1, f1⟩ := ctrName_step fmt key st n
+  obtain ⟨e2, w2, f2⟩ := h (ctrName fmt key st n).1 (ctrName fmt key st n).2
+  refine ⟨e1.trans e2, fun hw => w2 (w1 hw), fun st' hst' => ?_⟩
+  exact f2 st' hst' (f1 st' (e2.trans hst'))
+
+/-- sequencing of two passes -/
+theorem Pass.append [DecidableEq κ] (fmt : Nat → String) (key : Tree α → κ)
+    (f1 f2 : IdMap κ → List String × IdMap κ) (g1 g2 : (Tree α → String) → List String)
+    (h1 : Pass fmt key f1 g1) (h2 : Pass fmt key f2 g2) :
+    Pass fmt key (fun st => ((f1 st).1 ++ (f2 (f1 st).2).1, (f2 (f1 st).2).2))
+      (fun nm => g1 nm ++ g2 nm) := by
+  intro st
+  obtain ⟨e1, w1, p1⟩ := h1 st
+  obtain ⟨e2, w2, p2⟩ := h2 (f1 st).2
+  refine ⟨e1.trans e2, fun hw => w2 (w1 hw), fun st' hst' => ?_⟩
+  show (f1 st).1 ++ (f2 (f1 st).2).1 = _
+  rw [p1 st' (e2.trans hst'), p2 st' hst']
+
+theorem Pass.nil [DecidableEq κ] (fmt : Nat → String) (key : Tree α → κ) :
+    Pass fmt key (fun st => (([] : List String), st)) (fun _ => []) :=
+  fun st => ⟨Extends.refl st, id, fun _ _ => rfl⟩
+
+theorem Pass.congr [DecidableEq κ] (fmt : Nat → String) (key : Tree α → κ)
+    {f f' : IdMap κ → List String × IdMap κ} {g g' : (Tree α → String) → List String}
+    (h : Pass fmt key f g) (hf : ∀ st, f' st = f st) (hg : ∀ nm, g' nm = g nm) :
+    Pass fmt key f' g' := by
+  have e1 : f' = f := funext hf
+  have e2 : g' = g := funext hg
+  rw [e1, e2]; exact h
+
+/-! ### the DOT passes -/
+
+theorem dotNodes_pass [DecidableEq κ] (fmt : Nat → String) (key : Tree α → κ) (c : DotCfg α κ)
+    (hc : c.nodename = ctrName fmt key) (ind : String) (ns : List (Tree α)) :
+    Pass fmt key (dotNodes c ind ns) (fun nm => ns.map (dotNodeLine ind nm c.nodeattr)) := by
+  induction ns with
+  | nil => exact Pass.nil fmt key
+  | cons n ns ih =>
+    have hb := Pass.bind fmt key n
+      (fun pn st => ((ind ++ "\"" ++ esc pn ++ "\"" ++ optAttr (c.nodeattr n) ++ ";") ::
+        (dotNodes c ind ns st).1, (dotNodes c ind ns st).2))
+      (fun nm => dotNodeLine ind nm c.nodeattr n :: ns.map (dotNodeLine ind nm c.nodeattr))
+      (by
+        intro pn st
+        obtain ⟨e, w, f⟩ := ih st
+        refine ⟨e, w, fun st' hst' hpn => ?_⟩
+        show _ :: (dotNodes c ind ns st).1 = _
+        rw [f st' hst', hpn]; rfl)
+    refine hb.congr fmt key (fun st => ?_) (fun nm => rfl)
+    rw [dotNodes_cons, hc]
+
+theorem dotEdgesOf_pass [DecidableEq κ] (fmt : Nat → String) (key : Tree α → κ) (c : DotCfg α κ)
+    (hc : c.nodename = ctrName fmt key) (ind : String) (p : Tree α) (R : Tree α → Bool)
+    (chs : List (Tree α)) :
+    ∀ pn st, Extends st (dotEdgesOf c ind pn p R chs st).2 ∧
+      (IdMap.WF st → IdMap.WF (dotEdgesOf c ind pn p R chs st).2) ∧
+      ∀ st', Extends (dotEdgesOf c ind pn p R chs st).2 st' → pn = finalName fmt st' key p →
+        (dotEdgesOf c ind pn p R chs st).1 =
+          (chs.filter R).map (fun ch => dotEdgeLine ind (finalName fmt st' key) c.edgetype c.edgeattr (p, ch)) := by
+  induction chs with
+  | nil => intro pn st; exact ⟨Extends.refl st, id, fun _ _ _ => rfl⟩
+  | cons ch chs ih =>
+    intro pn st
+    cases h : R ch with
+    | false =>
+      rw [dotEdgesOf_cons_skip _ _ _ _ _ _ _ _ h]
+      simp only [List.filter_cons, h, Bool.false_eq_true, if_false]
+      exact ih pn st
+    | true =>
+      rw [dotEdgesOf_cons_keep _ _ _ _ _ _ _ _ h, hc]
+      simp only [List.filter_cons, h, if_true, List.map_cons]
+      obtain ⟨e1, w1, f1⟩ := ctrName_step fmt key st ch
+      obtain ⟨e2, w2, f2⟩ := ih pn (ctrName fmt key st ch).2
+      refine ⟨e1.trans e2, fun hw => w2 (w1 hw), fun st' hst' hpn => ?_⟩
+      show _ :: (dotEdgesOf c ind pn p R chs (ctrName fmt key st ch).2).1 = _
+      rw [f2 st' hst' hpn, f1 st' (e2.trans hst'), hpn]; rfl
+
+theorem dotEdges_pass [DecidableEq κ] (fmt : Nat → String) (key : Tree α → κ) (c : DotCfg α κ)
+    (hc : c.nodename = ctrName fmt key) (ind : String) (ps : List (Tree α)) :
+    Pass fmt key (dotEdges c ind ps) (fun nm => ps.flatMap (fun p => (p.kids.filter c.filter).map
+        (fun ch => dotEdgeLine ind nm c.edgetype c.edgeattr (p, ch)))) := by
+  induction ps with
+  | nil => exact Pass.nil fmt key
+  | cons p ps ih =>
+    have hb := Pass.bind fmt key p
+      (fun pn st => ((dotEdgesOf c ind pn p c.filter p.kids st).1 ++
+          (dotEdges c ind ps (dotEdgesOf c ind pn p c.filter p.kids st).2).1,
+        (dotEdges c ind ps (dotEdgesOf c ind pn p c.filter p.kids st).2).2))
+      (fun nm => (p.kids.filter c.filter).map
+          (fun ch => dotEdgeLine ind nm c.edgetype c.edgeattr (p, ch)) ++
+        ps.flatMap (fun p => (p.kids.filter c.filter).map
+          (fun ch => dotEdgeLine ind nm c.edgetype c.edgeattr (p, ch))))
+      (by
+        intro pn st
+        obtain ⟨e1, w1, f1⟩ := dotEdgesOf_pass fmt key c hc ind p c.filter p.kids pn st
+        obtain ⟨e2, w2, f2⟩ := ih (dotEdgesOf c ind pn p c.filter p.kids st).2
+        refine ⟨e1.trans e2, fun hw => w2 (w1 hw), fun st' hst' hpn => ?_⟩
+        show (dotEdgesOf c ind pn p c.filter p.kids st).1 ++ _ = _
+        rw [f1 st' (e2.trans hst') hpn, f2 st' hst'])
+    refine hb.congr fmt key (fun st => ?_) (fun nm => ?_)
+    · rw [dotEdges_cons, hc]
+    · rw [List.flatMap_cons]
+
+theorem dotIter_eq (legacy : Bool) (c : DotCfg α κ) (t : Tree α) (st : IdMap κ) :
+    dotIter legacy c t st =
+      ([c.graph ++ " " ++ c.name ++ " {"] ++ c.options.map (fun o => spaces c.indent ++ o) ++
+        (dotNodes c (spaces c.indent) (Iter.preIter c.filter c.stop c.maxlevel t) st).1 ++
+        (dotEdges c (spaces c.indent) (Iter.preIter c.filter c.stop (edgeMax legacy c.maxlevel) t)
+          (dotNodes c (spaces c.indent) (Iter.preIter c.filter c.stop c.maxlevel t) st).2).1 ++ ["}"],
+       (dotEdges c (spaces c.indent) (Iter.preIter c.filter c.stop (edgeMax legacy c.maxlevel) t)
+          (dotNodes c (spaces c.indent) (Iter.preIter c.filter c.stop c.maxlevel t) st).2).2) := rfl
+
+/-- the whole DOT iteration with a counter-based naming -/
+theorem dot_ctr_eq_pure [DecidableEq κ] (fmt : Nat → String) (c : DotCfg α κ) (key : Tree α → κ)
+    (t : Tree α) (st : IdMap κ) :
+    let r := dotIter false { c with nodename := ctrName fmt key } t st
+    r.1 = (dotIter false { c with nodename := NameFn.pure (finalName fmt r.2 key) } t st).1 ∧
+    Extends st r.2 ∧ (IdMap.WF st → IdMap.WF r.2) := by
+  intro r
+  have hN := dotNodes_pass fmt key { c with nodename := ctrName fmt key } rfl (spaces c.indent)
+    (Iter.preIter c.filter c.stop c.maxlevel t)
+  have hE := dotEdges_pass fmt key { c with nodename := ctrName fmt key } rfl (spaces c.indent)
+    (Iter.preIter c.filter c.stop (edgeMax false c.maxlevel) t)
+  have hA := (Pass.append fmt key _ _ _ _ hN hE) st
+  obtain ⟨e, w, f⟩ := hA
+  refine ⟨?_, e, w⟩
+  have hf := f r.2 (Extends.refl _)
+  rw [dot_lines_pure]
+  show r.1 = dotLinesD3 c (finalName fmt r.2 key) t
+  have hr : r.1 = [c.graph ++ " " ++ c.name ++ " {"] ++ c.options.map (fun o => spaces c.indent ++ o) ++
+      ((dotNodes { c with nodename := ctrName fmt key } (spaces c.indent)
+          (Iter.preIter c.filter c.stop c.maxlevel t) st).1 ++
+        (dotEdges { c with nodename := ctrName fmt key } (spaces c.indent)
+          (Iter.preIter c.filter c.stop (edgeMax false c.maxlevel) t)
+          (dotNodes { c with nodename := ctrName fmt key } (spaces c.indent)
+            (Iter.preIter c.filter c.stop c.maxlevel t) st).2).1) ++ ["}"] := by
+    show (dotIter false { c with nodename := ctrName fmt key } t st).1 = _
+    rw [dotIter_eq]
+    simp only [List.append_assoc]
+  rw [hr]
+  have hf' : (dotNodes { c with nodename := ctrName fmt key } (spaces c.indent)
+          (Iter.preIter c.filter c.stop c.maxlevel t) st).1 ++
+        (dotEdges { c with nodename := ctrName fmt key } (spaces c.indent)
+          (Iter.preIter c.filter c.stop (edgeMax false c.maxlevel) t)
+          (dotNodes { c with nodename := ctrName fmt key } (spaces c.indent)
+            (Iter.preIter c.filter c.stop c.maxlevel t) st).2).1 = _ := hf
+  rw [hf']
+  simp only [dotLinesD3, declared, edgePairsNoStopRecheck, List.map_flatMap, List.map_map,
+    C06.preIter_spec, edgeMax_false, List.append_assoc]
+  rfl
+
+/-- UniqueDotExporter's first-use counter is unobservable apart from the names it produces: one
+iteration with the stateful default naming emits the same lines as the pure naming that reads every
+identifier off the *final* map, and the map only grows (so a later iteration reuses every id) -/
+theorem dot_unique_eq_pure [DecidableEq κ] (c : DotCfg α κ) (key : Tree α → κ) (t : Tree α)
+    (st : IdMap κ) :
+    let r := dotIter false { c with nodename := uniqueName key } t st
+    r.1 = (dotIter false { c with nodename := NameFn.pure (finalHex r.2 key) } t st).1 ∧
+    (∀ k n, st.lookup k = some n → r.2.lookup k = some n) ∧
+    (IdMap.WF st → IdMap.WF r.2) :=
+  dot_ctr_eq_pure pyHex c key t st
+
+/-! ## finding D2 (repaired): the old edge-pass limit -/
+theorem edgeMax_legacy_eq (m : Option Int) (h : m ≠ some 0) : edgeMax true m = edgeMax false m := by
+  cases m with
+  | none => rfl
+  | some k =>
+    have hk : k ≠ 0 := fun e => h (by rw [e])
+    simp [edgeMax, Iter.decMax, hk]
+theorem edgeMax_legacy_zero : edgeMax true (some 0) = none ∧ edgeMax false (some 0) = some (-1) := by
+  constructor <;> rfl
+
 end Anytree.Props.C12
